@@ -11,7 +11,7 @@ against the model's `Encoder.draw` / `Encoder.step` / `Encoder.bytes`  (part 3 o
 * `draw_code_tie`: for every well-formed state, every verb `op` and operands `a0 … a5`, the generated `draw` called with
   the verb's byte returns the representation of the model's `draw op` on the first `nArgs` operands
   (fuel ≥ `len(drawArgs) + 8`: up to 6 operands are appended before the second flush).
-* one tie per drawing method (`absHLineTo_code_tie` … `relArcTo_code_tie`) against the corresponding `Encoder.step`.
+* one tie per drawing method (`encoder_absHLineTo_code_tie` … `relArcTo_code_tie`) against the corresponding `Encoder.step`.
 * `bytes_code_tie` against `Encoder.bytes`.
 
 `encDrawRep m` is the tuple of the five fields these methods write: `(buf, err, mode, drawOp, drawArgs)`.
@@ -238,7 +238,7 @@ include hwf hf
 
 tolerant
 /-- encode.go `(*Encoder).AbsHLineTo` = `Encoder.step … (.d1 .H x)` -/
-theorem absHLineTo_code_tie (x : F32) :
+theorem encoder_absHLineTo_code_tie (x : F32) :
     encode_Encoder_AbsHLineTo fuel m.hiResLocal m.buf (goErr m.err) (goMode m.mode) (goDrawOp m.drawOp)
         m.drawArgs.flatten x = encDrawRep (m.step (.d1 .H x)) := by
   simp only [encode_Encoder_AbsHLineTo, Enc.Encoder.step]
@@ -246,7 +246,7 @@ theorem absHLineTo_code_tie (x : F32) :
 
 tolerant
 /-- encode.go `(*Encoder).RelHLineTo` = `Encoder.step … (.d1 .h x)` -/
-theorem relHLineTo_code_tie (x : F32) :
+theorem encoder_relHLineTo_code_tie (x : F32) :
     encode_Encoder_RelHLineTo fuel m.hiResLocal m.buf (goErr m.err) (goMode m.mode) (goDrawOp m.drawOp)
         m.drawArgs.flatten x = encDrawRep (m.step (.d1 .h x)) := by
   simp only [encode_Encoder_RelHLineTo, Enc.Encoder.step]
@@ -254,7 +254,7 @@ theorem relHLineTo_code_tie (x : F32) :
 
 tolerant
 /-- encode.go `(*Encoder).AbsVLineTo` = `Encoder.step … (.d1 .V y)` -/
-theorem absVLineTo_code_tie (y : F32) :
+theorem encoder_absVLineTo_code_tie (y : F32) :
     encode_Encoder_AbsVLineTo fuel m.hiResLocal m.buf (goErr m.err) (goMode m.mode) (goDrawOp m.drawOp)
         m.drawArgs.flatten y = encDrawRep (m.step (.d1 .V y)) := by
   simp only [encode_Encoder_AbsVLineTo, Enc.Encoder.step]
@@ -262,7 +262,7 @@ theorem absVLineTo_code_tie (y : F32) :
 
 tolerant
 /-- encode.go `(*Encoder).RelVLineTo` = `Encoder.step … (.d1 .v y)` -/
-theorem relVLineTo_code_tie (y : F32) :
+theorem encoder_relVLineTo_code_tie (y : F32) :
     encode_Encoder_RelVLineTo fuel m.hiResLocal m.buf (goErr m.err) (goMode m.mode) (goDrawOp m.drawOp)
         m.drawArgs.flatten y = encDrawRep (m.step (.d1 .v y)) := by
   simp only [encode_Encoder_RelVLineTo, Enc.Encoder.step]
@@ -270,7 +270,7 @@ theorem relVLineTo_code_tie (y : F32) :
 
 tolerant
 /-- encode.go `(*Encoder).AbsLineTo` = `Encoder.step … (.d2 .L x y)` -/
-theorem absLineTo_code_tie (x y : F32) :
+theorem encoder_absLineTo_code_tie (x y : F32) :
     encode_Encoder_AbsLineTo fuel m.hiResLocal m.buf (goErr m.err) (goMode m.mode) (goDrawOp m.drawOp)
         m.drawArgs.flatten x y = encDrawRep (m.step (.d2 .L x y)) := by
   simp only [encode_Encoder_AbsLineTo, Enc.Encoder.step]
@@ -278,7 +278,7 @@ theorem absLineTo_code_tie (x y : F32) :
 
 tolerant
 /-- encode.go `(*Encoder).RelLineTo` = `Encoder.step … (.d2 .l x y)` -/
-theorem relLineTo_code_tie (x y : F32) :
+theorem encoder_relLineTo_code_tie (x y : F32) :
     encode_Encoder_RelLineTo fuel m.hiResLocal m.buf (goErr m.err) (goMode m.mode) (goDrawOp m.drawOp)
         m.drawArgs.flatten x y = encDrawRep (m.step (.d2 .l x y)) := by
   simp only [encode_Encoder_RelLineTo, Enc.Encoder.step]
@@ -286,7 +286,7 @@ theorem relLineTo_code_tie (x y : F32) :
 
 tolerant
 /-- encode.go `(*Encoder).AbsSmoothQuadTo` = `Encoder.step … (.d2 .T x y)` -/
-theorem absSmoothQuadTo_code_tie (x y : F32) :
+theorem encoder_absSmoothQuadTo_code_tie (x y : F32) :
     encode_Encoder_AbsSmoothQuadTo fuel m.hiResLocal m.buf (goErr m.err) (goMode m.mode) (goDrawOp m.drawOp)
         m.drawArgs.flatten x y = encDrawRep (m.step (.d2 .T x y)) := by
   simp only [encode_Encoder_AbsSmoothQuadTo, Enc.Encoder.step]
@@ -294,7 +294,7 @@ theorem absSmoothQuadTo_code_tie (x y : F32) :
 
 tolerant
 /-- encode.go `(*Encoder).RelSmoothQuadTo` = `Encoder.step … (.d2 .t x y)` -/
-theorem relSmoothQuadTo_code_tie (x y : F32) :
+theorem encoder_relSmoothQuadTo_code_tie (x y : F32) :
     encode_Encoder_RelSmoothQuadTo fuel m.hiResLocal m.buf (goErr m.err) (goMode m.mode) (goDrawOp m.drawOp)
         m.drawArgs.flatten x y = encDrawRep (m.step (.d2 .t x y)) := by
   simp only [encode_Encoder_RelSmoothQuadTo, Enc.Encoder.step]
@@ -302,7 +302,7 @@ theorem relSmoothQuadTo_code_tie (x y : F32) :
 
 tolerant
 /-- encode.go `(*Encoder).ClosePathAbsMoveTo` = `Encoder.step … (.d2 .Y x y)` -/
-theorem closePathAbsMoveTo_code_tie (x y : F32) :
+theorem encoder_closePathAbsMoveTo_code_tie (x y : F32) :
     encode_Encoder_ClosePathAbsMoveTo fuel m.hiResLocal m.buf (goErr m.err) (goMode m.mode) (goDrawOp m.drawOp)
         m.drawArgs.flatten x y = encDrawRep (m.step (.d2 .Y x y)) := by
   simp only [encode_Encoder_ClosePathAbsMoveTo, Enc.Encoder.step]
@@ -310,7 +310,7 @@ theorem closePathAbsMoveTo_code_tie (x y : F32) :
 
 tolerant
 /-- encode.go `(*Encoder).ClosePathRelMoveTo` = `Encoder.step … (.d2 .y x y)` -/
-theorem closePathRelMoveTo_code_tie (x y : F32) :
+theorem encoder_closePathRelMoveTo_code_tie (x y : F32) :
     encode_Encoder_ClosePathRelMoveTo fuel m.hiResLocal m.buf (goErr m.err) (goMode m.mode) (goDrawOp m.drawOp)
         m.drawArgs.flatten x y = encDrawRep (m.step (.d2 .y x y)) := by
   simp only [encode_Encoder_ClosePathRelMoveTo, Enc.Encoder.step]
@@ -318,7 +318,7 @@ theorem closePathRelMoveTo_code_tie (x y : F32) :
 
 tolerant
 /-- encode.go `(*Encoder).AbsQuadTo` = `Encoder.step … (.d4 .Q x1 y1 x y)` -/
-theorem absQuadTo_code_tie (x1 y1 x y : F32) :
+theorem encoder_absQuadTo_code_tie (x1 y1 x y : F32) :
     encode_Encoder_AbsQuadTo fuel m.hiResLocal m.buf (goErr m.err) (goMode m.mode) (goDrawOp m.drawOp)
         m.drawArgs.flatten x1 y1 x y = encDrawRep (m.step (.d4 .Q x1 y1 x y)) := by
   simp only [encode_Encoder_AbsQuadTo, Enc.Encoder.step]
@@ -326,7 +326,7 @@ theorem absQuadTo_code_tie (x1 y1 x y : F32) :
 
 tolerant
 /-- encode.go `(*Encoder).RelQuadTo` = `Encoder.step … (.d4 .q x1 y1 x y)` -/
-theorem relQuadTo_code_tie (x1 y1 x y : F32) :
+theorem encoder_relQuadTo_code_tie (x1 y1 x y : F32) :
     encode_Encoder_RelQuadTo fuel m.hiResLocal m.buf (goErr m.err) (goMode m.mode) (goDrawOp m.drawOp)
         m.drawArgs.flatten x1 y1 x y = encDrawRep (m.step (.d4 .q x1 y1 x y)) := by
   simp only [encode_Encoder_RelQuadTo, Enc.Encoder.step]
@@ -334,7 +334,7 @@ theorem relQuadTo_code_tie (x1 y1 x y : F32) :
 
 tolerant
 /-- encode.go `(*Encoder).AbsSmoothCubeTo` = `Encoder.step … (.d4 .S x2 y2 x y)` -/
-theorem absSmoothCubeTo_code_tie (x2 y2 x y : F32) :
+theorem encoder_absSmoothCubeTo_code_tie (x2 y2 x y : F32) :
     encode_Encoder_AbsSmoothCubeTo fuel m.hiResLocal m.buf (goErr m.err) (goMode m.mode) (goDrawOp m.drawOp)
         m.drawArgs.flatten x2 y2 x y = encDrawRep (m.step (.d4 .S x2 y2 x y)) := by
   simp only [encode_Encoder_AbsSmoothCubeTo, Enc.Encoder.step]
@@ -342,7 +342,7 @@ theorem absSmoothCubeTo_code_tie (x2 y2 x y : F32) :
 
 tolerant
 /-- encode.go `(*Encoder).RelSmoothCubeTo` = `Encoder.step … (.d4 .s x2 y2 x y)` -/
-theorem relSmoothCubeTo_code_tie (x2 y2 x y : F32) :
+theorem encoder_relSmoothCubeTo_code_tie (x2 y2 x y : F32) :
     encode_Encoder_RelSmoothCubeTo fuel m.hiResLocal m.buf (goErr m.err) (goMode m.mode) (goDrawOp m.drawOp)
         m.drawArgs.flatten x2 y2 x y = encDrawRep (m.step (.d4 .s x2 y2 x y)) := by
   simp only [encode_Encoder_RelSmoothCubeTo, Enc.Encoder.step]
@@ -350,7 +350,7 @@ theorem relSmoothCubeTo_code_tie (x2 y2 x y : F32) :
 
 tolerant
 /-- encode.go `(*Encoder).AbsCubeTo` = `Encoder.step … (.d6 .C x1 y1 x2 y2 x y)` -/
-theorem absCubeTo_code_tie (x1 y1 x2 y2 x y : F32) :
+theorem encoder_absCubeTo_code_tie (x1 y1 x2 y2 x y : F32) :
     encode_Encoder_AbsCubeTo fuel m.hiResLocal m.buf (goErr m.err) (goMode m.mode) (goDrawOp m.drawOp)
         m.drawArgs.flatten x1 y1 x2 y2 x y = encDrawRep (m.step (.d6 .C x1 y1 x2 y2 x y)) := by
   simp only [encode_Encoder_AbsCubeTo, Enc.Encoder.step]
@@ -358,7 +358,7 @@ theorem absCubeTo_code_tie (x1 y1 x2 y2 x y : F32) :
 
 tolerant
 /-- encode.go `(*Encoder).RelCubeTo` = `Encoder.step … (.d6 .c x1 y1 x2 y2 x y)` -/
-theorem relCubeTo_code_tie (x1 y1 x2 y2 x y : F32) :
+theorem encoder_relCubeTo_code_tie (x1 y1 x2 y2 x y : F32) :
     encode_Encoder_RelCubeTo fuel m.hiResLocal m.buf (goErr m.err) (goMode m.mode) (goDrawOp m.drawOp)
         m.drawArgs.flatten x1 y1 x2 y2 x y = encDrawRep (m.step (.d6 .c x1 y1 x2 y2 x y)) := by
   simp only [encode_Encoder_RelCubeTo, Enc.Encoder.step]
@@ -366,7 +366,7 @@ theorem relCubeTo_code_tie (x1 y1 x2 y2 x y : F32) :
 
 tolerant
 /-- encode.go `(*Encoder).ClosePathEndPath` = `Encoder.step … .closeEnd` -/
-theorem closePathEndPath_code_tie :
+theorem encoder_closePathEndPath_code_tie :
     encode_Encoder_ClosePathEndPath fuel m.hiResLocal m.buf (goErr m.err) (goMode m.mode) (goDrawOp m.drawOp)
         m.drawArgs.flatten = encDrawRep (m.step .closeEnd) := by
   simp only [encode_Encoder_ClosePathEndPath, Enc.Encoder.step]
